@@ -14,6 +14,7 @@ variable [Rules]
 /-- `find_func(g)->uses` -/
 def U (gs : List Obj) (g : Name) : Option (List Sym) := (findFunc gs g).map (·.uses)
 
+omit [Rules] in
 theorem findFunc_data_append {l1 : List Obj} (h : ∀ o, o ∈ l1 → o.isFunction = false) (gs : List Obj) (g : Name) :
     findFunc (l1 ++ gs) g = findFunc gs g := by
   induction l1 with
@@ -23,10 +24,12 @@ theorem findFunc_data_append {l1 : List Obj} (h : ∀ o, o ∈ l1 → o.isFuncti
     simp only [List.cons_append, findFunc, List.find?, ha, Bool.false_and]
     exact ih (fun o ho => h o (List.mem_cons_of_mem _ ho))
 
+omit [Rules] in
 theorem findFunc_cons_data {o : Obj} (h : o.isFunction = false) (gs : List Obj) (g : Name) :
     findFunc (o :: gs) g = findFunc gs g := by
   simp [findFunc, List.find?, h]
 
+omit [Rules] in
 /-- an update of a function object that leaves `uses` alone -/
 theorem U_updFunc {u : Obj → Obj} (hu : KeepsId u) (hk : ∀ o, (u o).uses = o.uses) (gs : List Obj) (f : Name) :
     U (updFunc gs f u) = U gs := by
@@ -40,6 +43,7 @@ theorem U_updFunc {u : Obj → Obj} (hu : KeepsId u) (hk : ∀ o, (u o).uses = o
     exact hk o
   · simp [hg]
 
+omit [Rules] in
 theorem U_fnEffect (cur : Option Name) (gs : List Obj) (l : List Name) : U (fnEffect cur gs l) = U gs := by
   cases cur with
   | some f => exact U_updFunc (u := addRefsO l) (fun _ => ⟨rfl, rfl⟩) (fun _ => rfl) gs f
@@ -51,10 +55,12 @@ theorem U_fnEffect (cur : Option Name) (gs : List Obj) (l : List Name) : U (fnEf
       simp only [List.foldl_cons]
       rw [ih, U_updFunc (u := setRootO) (fun _ => ⟨rfl, rfl⟩) (fun _ => rfl)]
 
+omit [Rules] in
 theorem U_data_append {l1 : List Obj} (h : ∀ o, o ∈ l1 → o.isFunction = false) (gs : List Obj) : U (l1 ++ gs) = U gs := by
   funext g
   simp only [U, findFunc_data_append h]
 
+omit [Rules] in
 theorem U_cons_data {o : Obj} (h : o.isFunction = false) (gs : List Obj) : U (o :: gs) = U gs := by
   funext g
   simp only [U, findFunc_cons_data h]
@@ -214,9 +220,11 @@ def namedOf (l : List Sym) : List Name := l.filterMap (fun s => match s with | .
 def directRefs (b : List BodyItem) : List Name :=
   b.filterMap (fun i => match i with | .ref (.fn g) => some g | .ref (.obj x) => some x | _ => none)
 
+omit [Rules] in
 theorem namedOf_append (a b : List Sym) : namedOf (a ++ b) = namedOf a ++ namedOf b := by
   simp [namedOf, List.filterMap_append]
 
+omit [Rules] in
 theorem namedOf_bodyLabels : ∀ (b : List BodyItem) (k : Nat), namedOf (bodyLabels k b) = directRefs b
   | [], _ => rfl
   | i :: rest, k => by
@@ -227,6 +235,7 @@ theorem namedOf_bodyLabels : ∀ (b : List BodyItem) (k : Nat), namedOf (bodyLab
     | str n => simp [bodyItemLabels, namedOf, directRefs]
     | externObj x tls ty => simp [bodyItemLabels, namedOf, directRefs]
 
+omit [Rules] in
 theorem namedOf_initLabels : ∀ (items : List InitItem) (k : Nat),
     namedOf (initLabels k items) = items.filterMap (fun i => match i with | .ref (.fn g) => some g | .ref (.obj x) => some x | _ => none)
   | [], _ => rfl
@@ -286,9 +295,11 @@ theorem NU_declAll : ∀ (ds : List Decl) {st st' : PState}, declAll st ds = .ok
       rw [ih h g, NU_declStep h1 g]
       rfl
 
+omit [Rules] in
 theorem foldNU_cons (d : Decl) (ds : List Decl) (g : Name) (cur : Option (List Name)) :
     foldNU (d :: ds) g cur = foldNU ds g (stepNU d g cur) := rfl
 
+omit [Rules] in
 theorem foldNU_noBody : ∀ (ds : List Decl) (g : Name) (v : List Name),
     (fnDecls ds g).all (fun d => d.body.isNone) = true → foldNU ds g (some v) = some v
   | [], _, _, _ => rfl
@@ -313,6 +324,7 @@ theorem foldNU_noBody : ∀ (ds : List Decl) (g : Name) (v : List Name),
       simp only [stepNU]
       exact foldNU_noBody ds g v h
 
+omit [Rules] in
 /-- a function with exactly one body: its `uses` are the identifiers of that body -/
 theorem foldNU_defined : ∀ (ds : List Decl) (g : Name) (cur : Option (List Name)),
     ((fnDecls ds g).filter (fun d => d.body.isSome)).length ≤ 1 → fnDefined (fnDecls ds g) = true →
